@@ -196,7 +196,7 @@ Qed.
 (* ---------------------------------------------------------------- the checker *)
 Lemma check_entry c annot : check c annot = true -> consistent annot init_state.
 Proof.
-  unfold check, consistent. simpl.
+  unfold check, consistent. change (pc init_state) with 0.
   destruct (nth_error annot 0) as [[a0|]|] eqn:E; try discriminate.
   destruct (aleb a_init a0) eqn:EA; [|discriminate]. intros _.
   exists a0; split; auto.
@@ -291,6 +291,9 @@ Proof.
   destruct H as [_ [_ H]]. f_equal. eapply IH; eauto.
 Qed.
 
+Lemma forall2_length {A B} (R : A -> B -> Prop) l1 l2 : Forall2 R l1 l2 -> List.length l1 = List.length l2.
+Proof. induction 1; simpl; auto. Qed.
+
 Theorem block_depth_unique c annot :
   check c annot = true ->
   forall s1 s2, reachable c s1 -> reachable c s2 -> pc s1 = pc s2 ->
@@ -302,7 +305,7 @@ Proof.
   rewrite E in H1. rewrite H1 in H2. inversion H2; subst a2.
   destruct C1 as [_ [B1 [F1 _]]]. destruct C2 as [_ [B2 [F2 _]]].
   split.
-  - rewrite <- (Forall2_length B1), <- (Forall2_length B2). reflexivity.
+  - rewrite <- (forall2_length _ _ _ B1), <- (forall2_length _ _ _ B2). reflexivity.
   - rewrite (fchain_length _ _ _ _ F1), (fchain_length _ _ _ _ F2). reflexivity.
 Qed.
 
@@ -343,3 +346,117 @@ Proof.
   - intros st R. eapply no_stuck_reachable; eauto.
   - eapply block_depth_unique; eauto.
 Qed.
+
+(* ---------------------------------------------------------------- non-vacuity *)
+Module Examples.
+  Open Scope string_scope.
+  Definition I (t : nat) (n : string) (o : operand) : instr := Instr (N.of_nat t) n o None.
+
+  (* dump of: i=0; while i<5 { i=i+1; if i==2 { break }; r = `a{2d6}b` }; r
+     (a loop, an if inside it, a break that closes the if's block, a template hole, a dice term) *)
+  Definition ex_loop : code :=
+    [ I 0 "push.int" (PInt 0); I 17 "store" PStr; I 82 "block.push" PNil; I 71 "mark.detail" PSpan; I 15 "ld.d" PStr;
+      I 0 "push.int" (PInt 5); I 35 "comp.lt" PNil; I 77 "jne" (PInt 28); I 71 "mark.detail" PSpan; I 15 "ld.d" PStr;
+      I 0 "push.int" (PInt 1); I 28 "add" PNil; I 17 "store" PStr; I 71 "mark.detail" PSpan; I 15 "ld.d" PStr;
+      I 0 "push.int" (PInt 2); I 37 "comp.eq" PNil; I 82 "block.push" PNil; I 77 "jne" (PInt 3); I 83 "block.pop" PNil;
+      I 75 "jmp" (PInt 15); I 75 "jmp" (PInt 0); I 83 "block.pop" PNil; I 2 "push.str" PStr; I 80 "fstr.block.push" PNil;
+      I 0 "push.int" (PInt 2); I 47 "dice.init" PNil; I 48 "dice.setTimes" PNil; I 0 "push.int" (PInt 6);
+      I 71 "mark.detail" PSpan; I 55 "dice" PNil; I 81 "fstr.block.pop" PNil; I 2 "push.str" PStr; I 13 "ld.fs" (PInt 3);
+      I 17 "store" PStr; I 75 "jmp" (PInt (-33)); I 83 "block.pop" PNil; I 71 "mark.detail" PSpan; I 15 "ld.d" PStr;
+      I 70 "halt" PNil ].
+
+  Example ex_loop_accepted : verify ex_loop = true /\ names_ok ex_loop = true.
+  Proof. split; vm_compute; reflexivity. Qed.
+
+  (* a function whose body rolls default-sides dice: func g() { return 2d }; g() *)
+  Definition ex_func : code :=
+    [ Instr 10 "push.func" PFn
+            (Some [ I 0 "push.int" (PInt 2); I 47 "dice.init" PNil; I 48 "dice.setTimes" PNil; I 71 "mark.detail" PSpan;
+                    I 12 "push.def_expr" PNil; I 55 "dice" PNil; I 79 "ret" PNil ]);
+      I 17 "store" PStr; I 71 "mark.detail" PSpan; I 15 "ld.d" PStr; I 20 "invoke" (PInt 0); I 70 "halt" PNil ].
+
+  Example ex_func_accepted : verify_all ex_func = true /\ count_bodies ex_func = 1.
+  Proof. split; vm_compute; reflexivity. Qed.
+
+  (* the template hole at the bottom of the stack whose statement leaves nothing: `{x.a=1}` --
+     fstr.block.pop must not pop here, and the verifier knows (relative fact h >= saved) *)
+  Definition ex_hole : code :=
+    [ I 80 "fstr.block.push" PNil; I 0 "push.int" (PInt 1); I 14 "ld" PStr; I 25 "attr.set" PStr;
+      I 81 "fstr.block.pop" PNil; I 13 "ld.fs" (PInt 1); I 70 "halt" PNil ].
+  Example ex_hole_accepted : verify ex_hole = true.
+  Proof. vm_compute; reflexivity. Qed.
+
+  (* rejected: [1 ? 2, 3] as compiled today -- the taken arm jumps over the second element *)
+  Definition ex_underflow : code :=
+    [ I 0 "push.int" (PInt 1); I 77 "jne" (PInt 2); I 0 "push.int" (PInt 2); I 75 "jmp" (PInt 2);
+      I 0 "push.int" (PInt 3); I 2 "push.str" PStr; I 3 "push.arr" (PInt 2); I 70 "halt" PNil ].
+  Example ex_underflow_rejected : diagnose ex_underflow = DReject 6 Underflow.
+  Proof. vm_compute; reflexivity. Qed.
+  (* ... and the shape machine really gets stuck on that path *)
+  Example ex_underflow_stuck :
+    exists s, reachable ex_underflow s /\ sstep ex_underflow s = Stuck Underflow.
+  Proof.
+    exists {| pc := 6; h := 1; blocks := []; fblocks := []; dice := 0; dets := 0; lastpop := true |}.
+    split; [|vm_compute; reflexivity].
+    eapply reach_step with (s := {| pc := 3; h := 1; blocks := []; fblocks := []; dice := 0; dets := 0; lastpop := true |});
+      [|vm_compute; reflexivity|left; reflexivity].
+    eapply reach_step with (s := {| pc := 2; h := 0; blocks := []; fblocks := []; dice := 0; dets := 0; lastpop := true |});
+      [|vm_compute; reflexivity|left; reflexivity].
+    eapply reach_step with (s := {| pc := 1; h := 1; blocks := []; fblocks := []; dice := 0; dets := 0; lastpop := false |});
+      [|vm_compute; reflexivity|left; reflexivity].
+    eapply reach_step with (s := init_state); [constructor|vm_compute; reflexivity|left; reflexivity].
+  Qed.
+
+  (* rejected: a jump that leaves the program *)
+  Definition ex_badjump : code := [ I 0 "push.int" (PInt 1); I 75 "jmp" (PInt 5); I 70 "halt" PNil ].
+  Example ex_badjump_rejected : diagnose ex_badjump = DReject 1 BadJump.
+  Proof. vm_compute; reflexivity. Qed.
+  Definition ex_badjump_back : code := [ I 0 "push.int" (PInt 1); I 75 "jmp" (PInt (-3)); I 70 "halt" PNil ].
+  Example ex_badjump_back_rejected : diagnose ex_badjump_back = DReject 1 BadJump.
+  Proof. vm_compute; reflexivity. Qed.
+
+  (* rejected: a jump whose operand was never written (nil) *)
+  Definition ex_niljump : code := [ I 0 "push.int" (PInt 1); I 78 "je.dup" PNil; I 70 "halt" PNil ].
+  Example ex_niljump_rejected : diagnose ex_niljump = DReject 1 BadOperand.
+  Proof. vm_compute; reflexivity. Qed.
+
+  (* NOT detectable as such: a jump left at the placeholder offset 0 is a legal jump to the next
+     instruction (`if 1 {}` compiles to a genuine `jmp 0`).  The verifier only sees its consequences:
+     `y = 0 || [` leaves `je.dup 0`, the falsy path loses the value, and `store` underflows. *)
+  Definition ex_unpatched : code :=
+    [ I 0 "push.int" (PInt 0); I 78 "je.dup" (PInt 0); I 17 "store" PStr; I 70 "halt" PNil ].
+  Example ex_unpatched_rejected : diagnose ex_unpatched = DReject 2 Underflow.
+  Proof. vm_compute; reflexivity. Qed.
+  Definition ex_unpatched_harmless : code := [ I 0 "push.int" (PInt 0); I 78 "je.dup" (PInt 0); I 70 "halt" PNil ].
+  Example ex_unpatched_not_detected : verify ex_unpatched_harmless = true.
+  Proof. vm_compute; reflexivity. Qed.
+
+  (* rejected: two paths reach one instruction with different numbers of open blocks *)
+  Definition ex_mismatch : code :=
+    [ I 0 "push.int" (PInt 1); I 77 "jne" (PInt 1); I 82 "block.push" PNil; I 70 "halt" PNil ].
+  Example ex_mismatch_rejected : diagnose ex_mismatch = DReject 3 BlockMismatch.
+  Proof. vm_compute; reflexivity. Qed.
+  Example ex_mismatch_real :
+    exists s1 s2, reachable ex_mismatch s1 /\ reachable ex_mismatch s2 /\ pc s1 = pc s2 /\
+                  List.length (blocks s1) <> List.length (blocks s2).
+  Proof.
+    exists {| pc := 3; h := 0; blocks := [0]; fblocks := []; dice := 0; dets := 0; lastpop := true |},
+           {| pc := 3; h := 0; blocks := []; fblocks := []; dice := 0; dets := 0; lastpop := true |}.
+    assert (R1 : reachable ex_mismatch {| pc := 1; h := 1; blocks := []; fblocks := []; dice := 0; dets := 0; lastpop := false |}).
+    { eapply reach_step with (s := init_state); [constructor|vm_compute; reflexivity|left; reflexivity]. }
+    repeat split.
+    - eapply reach_step with (s := {| pc := 2; h := 0; blocks := []; fblocks := []; dice := 0; dets := 0; lastpop := true |});
+        [|vm_compute; reflexivity|left; reflexivity].
+      eapply reach_step; [exact R1|vm_compute; reflexivity|left; reflexivity].
+    - eapply reach_step; [exact R1|vm_compute; reflexivity|right; left; reflexivity].
+    - simpl. discriminate.
+  Qed.
+
+  (* rejected: dice without dice.init, ld.d without mark.detail, block.pop without block.push *)
+  Example ex_nodice_rejected : diagnose [ I 0 "push.int" (PInt 6); I 71 "mark.detail" PSpan; I 55 "dice" PNil ] = DReject 2 NoDiceState.
+  Proof. vm_compute; reflexivity. Qed.
+  Example ex_nodetail_rejected : diagnose [ I 15 "ld.d" PStr; I 70 "halt" PNil ] = DReject 0 NoDetail.
+  Proof. vm_compute; reflexivity. Qed.
+  Example ex_noblock_rejected : diagnose [ I 83 "block.pop" PNil; I 70 "halt" PNil ] = DReject 0 BlockUnderflow.
+  Proof. vm_compute; reflexivity. Qed.
+End Examples.
